@@ -191,6 +191,13 @@ def run(ctx):
     if not q:
         res = tlc.run('MC_Validate', MC_CFG % (4, 'pruned'), coverage=True, timeout=3400)
         ctx.add_mc('MC_Validate(4 names, pruned pool)', res)
+    # negative control: the walkers as originally shipped (no descent into "not") must be caught
+    neg = tlc.run('MC_Validate', (MC_CFG % (2, 'full')).replace('INVARIANT InvReportExact\nINVARIANT InvCleanTerminates\n', 'INVARIANT NegShippedWalkers\n'), timeout=3400)
+    ctx.states += neg.distinct
+    ctx.transitions += neg.generated
+    if not any(v['name'] == 'NegShippedWalkers' for v in neg.violations):
+        raise RuntimeError('negative control failed: TLC did not find a graph on which the shipped walkers miss a reference under not')
+    ctx.note('negative control ok: the walkers as shipped (no descent into NotCheck) violate ReportExact (TLC counterexample found)')
     # liveness: on every rule set that validation accepts, the small-step evaluator
     # (one action per step of _check / And / Or / Not / RuleCheck) terminates under weak fairness
     res = tlc.run('EvalSS', SS_CFG % (3, 'pruned' if q else 'full'), coverage=not q, timeout=3400)
